@@ -144,6 +144,13 @@ class Exec(Core):
 
     # ---- flat conversion
     def flat(self, v, kind):
+        if self.is_unresolved(v) and isinstance(kind, tuple) and kind[0] in ('opt', 'union'):
+            # If-chain over the alternatives (no case split)
+            alts = v.alts
+            t = self.flat(alts[-1][1], kind)
+            for g, x in reversed(alts[:-1]):
+                t = z3.If(g, self.flat(x, kind), t)
+            return t
         v = self.res(v)
         if kind == 'int' and isinstance(v, (VInt, VBool)):
             return v.t if isinstance(v, VInt) else z3.If(v.t, 1, 0)
@@ -221,6 +228,16 @@ class Exec(Core):
         self.limit(f'cannot unflatten kind {kind}')
 
     def kind_of(self, v):
+        if self.is_unresolved(v):
+            ks = []
+            for _, x in v.alts:
+                ks.append('none' if isinstance(x, VNone) else self.kind_of(x))
+            nn = [k for k in ks if k != 'none']
+            if 'none' in ks and len(set(nn)) == 1:
+                return ('opt', nn[0])
+            if len(set(ks)) == 1:
+                return ks[0]
+            return ('union',) + tuple(dict.fromkeys(ks))
         v = self.res(v)
         if isinstance(v, VBool):
             return 'bool'
